@@ -1,3 +1,68 @@
-(* Engine entry points for C16: run_c16 sub-op case.  (stub until the property's model exists) *)
-From Pan Require Import Base.Common Base.Sx.
-Definition run_c16 (sub : Z) (x : sx) : sx := SL [SZ (-1)].
+(* Engine entry points for C16 (and, shared, C17): decode a case, run the aggregator model's
+   executable scheduler or one of the oracles, encode the answer.
+   sub 1: (components events) -> states after every event
+   sub 2: oracle check(s) on OBSERVED file states   sub 3: buffer file name of an output file name *)
+From Pan Require Import Base.Common Base.Sx Model.Aggregator.
+
+Definition dec_line (s : sx) : line :=
+  if sZ (sNth 0 s) =? 0 then LH (sZ (sNth 1 s)) else LR (sZs (sNth 1 s)) (sZ (sNth 2 s)).
+Definition enc_line (l : line) : sx :=
+  match l with LH h => SL [SZ 0; SZ h] | LR n p => SL [SZ 1; ofZs n; SZ p] end.
+Definition dec_file {A} (f : sx -> A) (s : sx) : file A :=
+  if sZ (sNth 0 s) =? 0 then None else Some (map f (sL (sNth 1 s))).
+Definition enc_file {A} (f : A -> sx) (o : file A) : sx :=
+  match o with None => SL [SZ 0] | Some l => SL [SZ 1; SL (map f l)] end.
+Definition dec_call (s : sx) : call :=
+  if sZ (sNth 0 s) =? 0 then mkEval (sZs (sNth 1 s)) (sZ (sNth 2 s)) else mkStat.
+Definition dec_row (s : sx) : row := (sZs (sNth 0 s), sZ (sNth 1 s)).
+
+Definition enc_pc (p : pc) : sx :=
+  match p with
+  | Start => SL [SZ 0] | HoldE => SL [SZ 1] | ReadE false => SL [SZ 2] | ReadE true => SL [SZ 3]
+  | ClaimedE => SL [SZ 4] | Evaluating => SL [SZ 5] | WantF => SL [SZ 6] | HoldF => SL [SZ 7]
+  | WroteF => SL [SZ 8] | Done false => SL [SZ 9] | Done true => SL [SZ 10]
+  | RStart => SL [SZ 11] | RHold => SL [SZ 12]
+  | RRead s => SL [SZ 13; SL (map enc_line s)] | RDone s => SL [SZ 14; SL (map enc_line s)]
+  end.
+Definition enc_cpc (c : cpc) : Z :=
+  match c with
+  | C0 => 0 | CWriteH => 1 | CBuf => 2 | CBufCreate => 3 | CAcqE => 4 | CAcqF => 5 | CLoad => 6
+  | CCopy _ => 7 | CRelF => 8 | CRelE => 9 | CDone => 10 | CFail => 11
+  end.
+
+Definition dec_comp (s : sx) : ast :=
+  mkAst (dec_file dec_line (sNth 0 s)) (dec_file sZs (sNth 1 s)) (sZ (sNth 2 s))
+        (if sZ (sNth 3 s) =? 0 then C0 else CDone) (map dec_call (sL (sNth 4 s))).
+Definition enc_comp (s : ast) : sx :=
+  SL [enc_file enc_line (out s); enc_file ofZs (buf s); SZ (enc_cpc (ctor s));
+      SL (map (fun t => enc_pc (cp t)) (calls s))].
+
+Definition dec_event (s : sx) : event :=
+  let k := Z.to_nat (sZ (sNth 1 s)) in
+  let tag := sZ (sNth 0 s) in
+  if tag =? 0 then EvCall k (Z.to_nat (sZ (sNth 2 s)))
+  else if tag =? 1 then EvCtor k
+  else if tag =? 2 then EvCrash k (sZ (sNth 2 s)) (map dec_call (sL (sNth 3 s)))
+  else if tag =? 3 then EvFinish k (sZ (sNth 2 s)) (map dec_call (sL (sNth 3 s)))
+  else EvCrashAll (map (fun x => (sZ (sNth 0 x), map dec_call (sL (sNth 1 x)))) (sL (sNth 1 s))).
+
+Definition run_sched (x : sx) : sx :=
+  let ms := map dec_comp (sL (sNth 0 x)) in
+  let es := map dec_event (sL (sNth 1 x)) in
+  SL (map (fun m => SL (map enc_comp m)) (run_events ms es)).
+
+Definition run_oracle1 (x : sx) : sx :=
+  let k := sZ (sNth 0 x) in
+  if k =? 0 then ofB (wf_outb (dec_file dec_line (sNth 1 x)))
+  else if k =? 1 then ofB (call_phaseb (sZ (sNth 1 x)) (dec_file dec_line (sNth 2 x)) (dec_file sZs (sNth 3 x)))
+  else if k =? 2 then ofB (monob (dec_file dec_line (sNth 1 x)) (dec_file dec_line (sNth 2 x)))
+  else if k =? 3 then ofB (finalb (sZ (sNth 1 x)) (map dec_row (sL (sNth 2 x))) (map dec_row (sL (sNth 3 x)))
+                                  (dec_file dec_line (sNth 4 x)))
+  else SZ (-1).
+Definition run_oracle (x : sx) : sx := SL (map run_oracle1 (sL x)).
+
+Definition run_c16 (sub : Z) (x : sx) : sx :=
+  if sub =? 1 then run_sched x
+  else if sub =? 2 then run_oracle x
+  else if sub =? 3 then ofZs (buf_name (sZs x))
+  else SL [SZ (-1)].
